@@ -90,8 +90,8 @@ class Interp:
         self.g.setdefault('getattr', lambda o, n, d=MISSING: self._getattr(o, n, d))
         self.g.setdefault('None', None)
         for nm, f in dict(all=all, any=any, tuple=tuple, dict=dict, set=set, frozenset=frozenset, sorted=sorted,
-                          zip=zip, enumerate=enumerate, map=lambda f, *a: tuple(map(f, *a)),
-                          filter=lambda f, a: tuple(filter(f, a)), list=list, str=str, int=int, range=range,
+                          zip=zip, enumerate=enumerate, map=map,
+                          filter=filter, list=list, str=str, int=int, range=range,
                           min=min, max=max, reversed=lambda x: tuple(reversed(x)), iter=iter, next=next).items():
             self.g.setdefault(nm, f)
 
